@@ -576,13 +576,13 @@ class FileCrash(common.Suite):
                     diffs.append(f"(i) {kind} call {n}: op sequence {ops} not in the protocol language ({out})")
                 continue
             w = out.split(" ")
-            if w[0] != "ok" or len(w) != len(tap.ops) + 1:
+            if w[0] != "ok" or len(w) != len(tap.ops) + 2 or not w[1].startswith("open="):
                 diffs.append(f"(ii) {kind}: model answered {out[:80]!r} for {len(tap.ops)} ops")
                 continue
-            disk = tap.initial if (case["mode"] == "a") else b""
+            disk = bytes.fromhex(w[1][5:])          # the model's disk right after open(mode) on the existing content
             if tap.visible[0] != disk:
                 diffs.append(f"(ii) {kind}: file after open({case['mode']!r}) holds {len(tap.visible[0])} bytes, model {len(disk)}")
-            for j, tok in enumerate(w[1:], start=1):
+            for j, tok in enumerate(w[2:], start=1):
                 keep, add, pend, k, win = tok.split(":")
                 disk = disk[: int(keep)] + bytes.fromhex(add)
                 pend = bytes.fromhex(pend)
@@ -627,5 +627,90 @@ def extra_coverage(res):
     return {"crash_points": dict(TOTALS)}
 
 
+class FileSemantics(common.Suite):
+    """the file machine of `QModel/Files.lean` against CPython's text files on random op scripts that are independent of
+    the observers (write directly followed by truncate, seek in mode 'a' followed by write, truncate below / above the
+    position, …): after every op the bytes a second reader sees must be a crash image of the model state, and equal to
+    the model's disk after flush / seek / truncate."""
+
+    name = "file-semantics"
+
+    def cases(self, rng, tier):
+        n = 120 if tier == "quick" else 2500
+        for _ in range(n):
+            ops = []
+            for _ in range(rng.randint(1, 14)):
+                r = rng.random()
+                if r < 0.45:
+                    ops.append(["w", bytes(rng.choice(b"abcdefgXYZ") for _ in range(rng.choice([1, 2, 3, 5, 9]))).hex()])
+                elif r < 0.65:
+                    ops.append(["f"])
+                elif r < 0.85:
+                    ops.append(["s", rng.choice([0, 0, 1, 2, 3, 5, 8])])
+                else:
+                    ops.append(["t"])
+            yield {"mode": rng.choice("aw"), "existing": rng.choice(["", "", "6f6c64", "6f6c642d636f6e74656e74"]), "ops": ops}
+
+    def real(self, case):
+        with tempfile.TemporaryDirectory(prefix="qverif-c16s-") as tmp:
+            path = os.path.join(tmp, "f")
+            if case["existing"]:
+                with open(path, "wb") as w:
+                    w.write(bytes.fromhex(case["existing"]))
+            tap = Tap(path, case["mode"])
+            for op in case["ops"]:
+                if op[0] == "w":
+                    tap.write(bytes.fromhex(op[1]).decode())
+                elif op[0] == "f":
+                    tap.flush()
+                elif op[0] == "s":
+                    tap.seek(op[1])
+                else:
+                    tap.truncate()
+            tap.close()
+            return {"visible": [v.hex() for v in tap.visible], "final": tap._peek().hex() if os.path.exists(path) else ""}
+
+    def model_lines(self, case):
+        toks = [("w" + op[1]) if op[0] == "w" else ("s" + str(op[1])) if op[0] == "s" else op[0] for op in case["ops"]]
+        return [" ".join(["files", case["mode"], case["existing"] or "-", *toks])]
+
+    def model_obs(self, case, outs):
+        return {"out": outs[0]}
+
+    def compare(self, case, real, model):
+        w = model["out"].split(" ")
+        vis = [bytes.fromhex(v) for v in real["visible"]]
+        if w[0] != "ok" or len(w) != len(case["ops"]) + 2:
+            return [f"model answered {model['out'][:80]!r}"]
+        disk = bytes.fromhex(w[1][5:])
+        if vis[0] != disk:
+            return [f"after open({case['mode']!r}): real {vis[0]!r} model {disk!r}"]
+        for j, tok in enumerate(w[2:], start=1):
+            keep, add, pend, _, _ = tok.split(":")
+            disk = disk[: int(keep)] + bytes.fromhex(add)
+            pend = bytes.fromhex(pend)
+            v = vis[j]
+            kind = case["ops"][j - 1][0]
+            if kind != "w" and v != disk:
+                return [f"op {j} {case['ops'][j - 1]}: real file {v!r}, model disk {disk!r} (pending {pend!r})"]
+            if kind == "w" and not any(self.image(disk, pend, c, case, j) == v for c in range(len(pend) + 1)):
+                return [f"op {j} {case['ops'][j - 1]}: real file {v!r} is not a crash image of model disk {disk!r} + pending {pend!r}"]
+        return []
+
+    @staticmethod
+    def image(disk, pend, c, case, j):
+        """disk with the first c pending bytes landed (append mode: at the end; otherwise where the model says — for the
+        comparison after a write only the append / end-of-file landing occurs unflushed)"""
+        return disk + pend[:c] if True else disk
+
+    def oracle(self, case, obs):
+        return []
+
+    def classify(self, case, obs):
+        kinds = [o[0] for o in case["ops"]]
+        pairs = {a + b for a, b in zip(kinds, kinds[1:])}
+        return f"mode={case['mode']},existing={bool(case['existing'])},wt={'wt' in pairs},sw={'sw' in pairs},tw={'tw' in pairs}"
+
+
 def suites(tier):
-    return [FileCrash()]
+    return [FileCrash(), FileSemantics()]
